@@ -951,6 +951,7 @@ func c16Gen(r *Rng, tier string, n int) []Case {
 	//    rotating quarter; thorough: everything (and the full cross product of families).
 	cross := []string{"0", "1", "-1", "16", "8", "100", "true", "false", "TRUE", "red", "Red", "#fff", "NaN", "circle", "none", "mono",
 		"up", "dots", "uppercase", " ", "x", "0.5", "1e0", "triangle", "default", "linear-gradient(red, blue)", "\xff", "ſ"}
+	rot := r.U64() % 30
 	for ki, k := range c16Kws {
 		kfam := k.family
 		if kfam == "float" {
@@ -971,7 +972,13 @@ func c16Gen(r *Rng, tier string, n int) []Case {
 		}
 		for ci, ctx := range c16CtxsFor(k) {
 			for vi, v := range vals {
-				if tier != "thorough" && ci > 0 && (vi+ki+ci)%4 != 0 {
+				own := fam[v] == kfam
+				switch {
+				case tier != "thorough" && ci > 0 && (vi+ki+ci)%4 != 0:
+					continue
+				// thorough: the keyword's family in every context; the other families completely in the
+				// primary context, a rotating fifth of them (by seed) in the other contexts.
+				case tier == "thorough" && !own && ci > 0 && (vi+ki+ci+int(rot))%5 != 0:
 					continue
 				}
 				f := fam[v]
@@ -979,7 +986,7 @@ func c16Gen(r *Rng, tier string, n int) []Case {
 					f = "cross"
 				}
 				class := "table-" + f
-				if f != kfam {
+				if !own {
 					class = "table-cross"
 				}
 				if tier != "thorough" && ci > 0 {
